@@ -6,6 +6,7 @@ cd /verif/harness/fuzz || exit 2
 export CARGO_NET_OFFLINE=true
 [ -f Cargo.lock ] || cp /repo/Cargo.lock .
 RUNS=${VERIF_FUZZ_RUNS:-400000}
+HANG=${VERIF_HANG_S:-120}
 SEED=${VERIF_SEED:-1}; [ "$SEED" = "0" ] && SEED=1
 BIN=/verif/harness/target/release/swiftmt-check
 rc=0; total=0; summary=""
@@ -21,7 +22,7 @@ for t in $TARGETS; do
   rm -f artifacts/$t/*
   # four workers per target, each a libFuzzer process with its own seed, sharing the corpus directory
   for w in 1 2 3 4; do
-    cargo +nightly fuzz run -O $t -- -runs=$((RUNS / 4)) -seed=$((SEED * 4 + w)) -len_control=0 -max_len=2048 -print_final_stats=1 >run.$t.$w.log 2>&1 &
+    cargo +nightly fuzz run -O $t -- -runs=$((RUNS / 4)) -seed=$((SEED * 4 + w)) -len_control=0 -max_len=2048 -timeout=$HANG -print_final_stats=1 >run.$t.$w.log 2>&1 &
   done
 done
 wait
@@ -35,11 +36,12 @@ for t in $TARGETS; do
   summary="$summary $t=$execs"
   for a in artifacts/$t/crash-* artifacts/$t/oom-* artifacts/$t/timeout-*; do
     [ -f "$a" ] || continue
-    case "$a" in *oom-*|*timeout-*) echo "fuzz $t: $a (resource limit: inconclusive, not a violation)" >&2; [ $rc -eq 0 ] && rc=2; continue;; esac
+    case "$a" in *oom-*) echo "fuzz $t: $a (memory limit: inconclusive, not a violation)" >&2; [ $rc -eq 0 ] && rc=2; continue;; esac
+    # crash-* and timeout-* (one input kept an entry point busy for $HANG s) are re-decided by the deterministic harness
     mkdir -p /verif/replays/C07
     r=/verif/replays/C07/fuzz-$t-$(basename "$a").json
     $BIN fuzz-artifact $t "$a" > "$r"
-    if $BIN C07 --replay "$r" | grep '^VIOLATION'; then rc=1; else echo "fuzz $t: artifact $a did not reproduce in the deterministic harness (ignored)" >&2; fi
+    if $BIN C07 --replay "$r" | grep '^VIOLATION'; then rc=1; else echo "fuzz $t: artifact $a did not reproduce in the deterministic harness (ignored: no failing input can be shown)" >&2; fi
   done
 done
 if [ "$total" -eq 0 ]; then echo "FUZZ: no executions recorded (inconclusive)" >&2; [ $rc -eq 0 ] && rc=2; fi
